@@ -61,12 +61,12 @@ class Unit:
 
 class LL:
     """a file of /repo compiled by clang to IR and translated by ll2c"""
-    def __init__(self, path, lang='c', opt='-O1', flags=(), ct=False, defs=None, prefix='ll_', export=(), rename=None):
+    def __init__(self, path, lang='c', opt='-O1', flags=(), ct=False, defs=None, prefix='ll_', export=(), rename=None, cflags=()):
         self.path = path; self.lang = lang; self.opt = opt; self.flags = tuple(flags)
         self.ct = ct; self.defs = dict(defs or {}); self.prefix = prefix
-        self.export = tuple(export); self.rename = dict(rename or {})
+        self.export = tuple(export); self.rename = dict(rename or {}); self.cflags = tuple(cflags)
     def key(self): return ('L', self.path, self.lang, self.opt, self.flags, self.ct,
-                           tuple(sorted(self.defs.items())), self.prefix, self.export, tuple(sorted(self.rename.items())))
+                           tuple(sorted(self.defs.items())), self.prefix, self.export, tuple(sorted(self.rename.items())), self.cflags)
 
 
 def dflags(d):
@@ -183,7 +183,7 @@ class Runner:
         info = json.load(open(base + '.json'))
         obj = base + '.o'
         cmd = ['goto-cc', '-std=gnu99', '-I' + os.path.join(VERIF, 'harness'), '-c', base + '.c', '-o', obj] + \
-              (['-DCT_MODE'] if l.ct else [])
+              (['-DCT_MODE'] if l.ct else []) + list(l.cflags)
         rc, out, _, _, _ = sh(cmd, timeout=300)
         if rc != 0:
             raise BuildError('goto-cc failed for translated %s:\n%s' % (l.path, out[-3000:]))
@@ -338,7 +338,7 @@ class Runner:
                 except BuildError:
                     return 'error', 'cannot build translated unit'
                 shutil.copy(csrc, os.path.join(outdir, 'll%d.c' % k))
-                script.append('gcc -std=gnu99 $OPT -w %s -I%s -c $D/ll%d.c -o $T/l%d.o || exit 99' % (' '.join(san), os.path.join(VERIF, 'harness'), k, k))
+                script.append('gcc -std=gnu99 $OPT -w %s %s -DREPLAY -I%s -c $D/ll%d.c -o $T/l%d.o || exit 99' % (' '.join(san), ' '.join((['-DCT_MODE'] if l.ct else []) + list(l.cflags)), os.path.join(VERIF, 'harness'), k, k))
                 objs.append('$T/l%d.o' % k)
                 continue
             dd = dict(cfg_defs(q.cfg)); dd.update(l.defs); dd['VH_SHIM'] = 1
@@ -417,11 +417,15 @@ def run_check(pid, tier, plan, seed=0, only=None, keep=False):
     inconclusive = []; violations = []; known_printed = []
     pre_notes = []
     try:
+        pre_violations = []
         for fn in plan.get('pre', []):
-            ok, note = fn(R)
+            res = fn(R)
+            ok, note = res[0], res[1]
             pre_notes.append(note)
             log('[pre] %s' % note)
-            if not ok:
+            if len(res) == 3 and res[2]:
+                pre_violations.append((note, res[2]))       # a pre-check that decided a clause itself and confirmed it on the real build
+            elif not ok:
                 inconclusive.append(('pre', note))
         jobs = []
         for q in queries:
@@ -524,7 +528,7 @@ def run_check(pid, tier, plan, seed=0, only=None, keep=False):
         wall = time.time() - t0
         cov = {
             'evaluations': len(jobs),
-            'distinct_nontrivial': discharged + len(violations),
+            'distinct_nontrivial': discharged + len(violations) + len(pre_violations),
             'rule': plan.get('rule', 'one evaluation = one CBMC+kissat run (a query or its -DWITNESS twin); a query counts as '
                              'distinct and non-trivial when it is a different (harness, parameters) pair, the solver '
                              'answered UNSAT for every assertion within the stated bounds, and its twin showed the end of '
@@ -545,20 +549,22 @@ def run_check(pid, tier, plan, seed=0, only=None, keep=False):
         }
         ev = {'property_id': pid, 'tier': tier, 'seed': seed, 'level': plan.get('level', 'model_checking'),
               'coverage': cov, 'assumptions': plan.get('assumptions', []), 'wall_s': round(wall, 1),
-              'violations': len(violations)}
+              'violations': len(violations) + len(pre_violations)}
         if plan.get('level') == 'translation_validation':
             cov['programs'] = discharged; cov['disagreements_checked'] = len(violations) + len([1 for n, w in inconclusive if 'counterexample' in w])
         os.makedirs(os.path.join(OUT, 'evidence'), exist_ok=True)
         with open(os.path.join(OUT, 'evidence', pid + '.json'), 'w') as f:
             json.dump(ev, f, indent=1)
+        for note, path in pre_violations:
+            log('VIOLATION property=%s replay=%s' % (pid, path)); log('   ' + note[:400])
         for q, (prop, d), path in violations:
             log('VIOLATION property=%s replay=%s' % (pid, path))
             log('   query %s: %s  [%s]' % (q.name, d, q.desc))
         for n, w in inconclusive:
             log('INCONCLUSIVE %s: %s' % (n, w[:500]))
         log('[%s] tier=%s obligations=%d discharged=%d inconclusive=%d violations=%d wall=%.0fs solver=%.0fs'
-            % (pid, tier, n_expect_pass, discharged, len(inconclusive), len(violations), wall, solver_s))
-        if violations: return 1
+            % (pid, tier, n_expect_pass, discharged, len(inconclusive), len(violations) + len(pre_violations), wall, solver_s))
+        if violations or pre_violations: return 1
         if inconclusive or R.build_errors: return 2
         return 0
     finally:
